@@ -443,8 +443,10 @@ def exact_shift_rule(ctx, chk, tabs, counts):
                     if isinstance(b, tuple):
                         atoms.add((b[1], b[2]))
                 atoms = sorted(atoms)
-                for vals in product((0, 1), repeat=len(atoms)):
-                    sigma = dict(zip(atoms, vals))
+                todo = [dict(zip(atoms, vals)) for vals in product((0, 1), repeat=len(atoms))]
+                refined_once = set()
+                while todo:
+                    sigma = todo.pop()
                     try:
                         s = summarize_fn(ctx, fn, specialise={cname: k}, assume=sigma)
                     except Unsupported as e:
@@ -453,6 +455,24 @@ def exact_shift_rule(ctx, chk, tabs, counts):
                     if s.st.dead or s.ret is None or s.ret.kind != "int":
                         undec.setdefault("run", (k, "no returning path (abort sites: R7)"))
                         continue
+                    # a flag that is still not a constant although its reference is: partition further on the (few) input
+                    # bits it depends on, once
+                    key_sigma = tuple(sorted(sigma.items()))
+                    if key_sigma not in refined_once:
+                        from domains import bits_all_deps
+                        extra = set()
+                        for fb in ("CF", "SF", "OF"):
+                            gb = _subst(s.flag.bits[FBIT[fb]], sigma)
+                            if isinstance(gb, tuple) and gb != ("c", "flag", FBIT[fb]):
+                                extra |= {d for d in bits_all_deps((gb,)) if d not in sigma and d[0] in (vname, "flag")}
+                        if extra and len(extra) <= 3 and len(sigma) + len(extra) <= 6:
+                            ex = sorted(extra)
+                            for vals2 in product((0, 1), repeat=len(ex)):
+                                s2 = dict(sigma)
+                                s2.update(zip(ex, vals2))
+                                refined_once.add(tuple(sorted(s2.items())))
+                                todo.append(s2)
+                            continue
                     want = [_subst(b, sigma) for b in ebits]
                     got = [_subst(b, sigma) for b in s.ret.bits]
                     wit = ", ".join(f"{a.upper() if a == 'flag' else a} bit {i} = {v}" for (a, i), v in sigma.items())
